@@ -80,6 +80,13 @@ class RegexMatch(Artifact):
         self.mstart = m.span(self.key)[0]
         self.mend = m.span(self.key)[1]
         self._text = m.group(self.key)
+        # several patterns end in optional whitespace; the blank after an
+        # expression is not part of it (it must neither count as coverage
+        # nor end up in the reported span)
+        stripped = self._text.rstrip()
+        if stripped:
+            self.mend -= len(self._text) - len(stripped)
+            self._text = stripped
 
     def __str__(self) -> str:
         return "{}:{}".format(self.id, self._text)
